@@ -255,6 +255,15 @@ impl<S: Read + Write> Client<S> {
     }
 }
 
+/// Verification hook (only with `--cfg rdp_rs_verif`): build the layer
+/// on an already negotiated transport (no negotiation, no TLS upgrade)
+#[cfg(rdp_rs_verif)]
+impl<S: Read + Write> Client<S> {
+    pub fn verif_new_raw(transport: tpkt::Client<S>, selected_protocol: Protocols) -> Self {
+        Client::new(transport, selected_protocol)
+    }
+}
+
 #[cfg(test)]
 mod test {
     use super::*;
